@@ -61,12 +61,15 @@ def updateAt (f : Obj → R Obj) : Obj → List String → R Obj
 def taggedKeys (g : Obj) : List String :=
   (g.kids.filter (fun kv => kv.2.hasTag)).map (·.1)
 
-/-- is this link a tree child in the sense of `_populate_tree` / `_overwrite_single_node`:
-    a group tagged with one of the data group types -/
-def isDataKid (dataTypes : List String) (o : Obj) : Bool :=
-  o.isGroup && (match o.gtype with
-    | some t => dataTypes.contains t
-    | none => false)
+/-- does the object carry an `emd_group_type` attribute naming one of the data group types
+    (the test `_overwrite_single_node` applies to decide which links to keep) -/
+def hasDataTag (dataTypes : List String) (o : Obj) : Bool :=
+  match o.gtype with
+  | some t => dataTypes.contains t
+  | none => false
+
+/-- is this link a tree child in the sense of `_populate_tree`: a *group* with a data group type tag -/
+def isDataKid (dataTypes : List String) (o : Obj) : Bool := o.isGroup && hasDataTag dataTypes o
 
 /-- `_overwrite_single_node(group, data)` seen from the parent group: the old group is parked under
     `_tmp_<name>`, the node is written anew, the old group's tree children are linked into it and
@@ -81,39 +84,43 @@ def overwriteSingleNode (dataTypes : List String) (parent : Obj) (i : NodeInfo) 
     else
       -- links copied only for keys that have the tag attribute and a data group type;
       -- `h5py` raises if the key already exists in the new group (a body name)
-      let links := old.kids.filter (fun kv => kv.2.hasTag && (match kv.2.gtype with
-        | some t => dataTypes.contains t | none => false))
+      let links := old.kids.filter (fun kv => hasDataTag dataTypes kv.2)
       if links.any (fun kv => (alookup kv.1 i.body).isSome) then
         throw (.error "link: name already exists")
       else
         pure (parent.setKids (areplace i.name (.group (nodeAttrs i) (i.body ++ links)) parent.kids))
 
 mutual
-/-- `_append_branch(group, data, appendover)` for the list of `data`'s children;
+/-- one iteration of the loop of `_append_branch(group, data, appendover)`, for the child `d` of `data`;
     `keys0` is `groupkeys`, computed once before the loop -/
+def appendOne (dataTypes : List String) (over : Bool) (keys0 : List String) (g : Obj) : Tree → R Obj
+  | .mk di dk =>
+    if !keys0.contains di.name then do
+      -- new node: simple write of the node and of its branch beneath it
+      if !g.isGroup then throw (.error "not a group")
+      if !validName di.name then throw (.error ("name outside the modelled domain: " ++ di.name))
+      if (alookup di.name g.kids).isSome then throw (.error ("name already exists: " ++ di.name))
+      let c ← writeNodeFull (.mk di dk)
+      pure (g.setKids (g.kids ++ [(di.name, c)]))
+    else do
+      let g' ← if over then overwriteSingleNode dataTypes g di else pure g
+      match alookup di.name g'.kids with
+      | none => throw (.error "no such group")
+      | some sub => do
+        -- `_append_branch(next_node, d, appendover)`
+        let sub' ← appendKids dataTypes over (taggedKeys sub) sub dk
+        pure (g'.setKids (areplace di.name sub' g'.kids))
+/-- the loop of `_append_branch` over the children of `data` -/
 def appendKids (dataTypes : List String) (over : Bool) (keys0 : List String) (g : Obj) : List Tree → R Obj
   | [] => pure g
   | d :: ds => do
-    let g1 ←
-      if !keys0.contains d.name then do
-        -- new node: simple write of the node and of its branch beneath it
-        if !g.isGroup then throw (.error "not a group")
-        if !validName d.name then throw (.error ("name outside the modelled domain: " ++ d.name))
-        if (alookup d.name g.kids).isSome then throw (.error ("name already exists: " ++ d.name))
-        let c ← writeNodeFull d
-        pure (g.setKids (g.kids ++ [(d.name, c)]))
-      else do
-        let g' ← if over then overwriteSingleNode dataTypes g d.info else pure g
-        match alookup d.name g'.kids with
-        | none => throw (.error "no such group")
-        | some sub => do
-          let sub' ← appendNode dataTypes over sub d
-          pure (g'.setKids (areplace d.name sub' g'.kids))
+    let g1 ← appendOne dataTypes over keys0 g d
     appendKids dataTypes over keys0 g1 ds
-/-- `_append_branch(next_node, d, appendover)` -/
-def appendNode (dataTypes : List String) (over : Bool) (sub : Obj) : Tree → R Obj
-  | .mk _ kids => appendKids dataTypes over (taggedKeys sub) sub kids
 end
+
+/-- `_append_branch(next_node, d, appendover)` -/
+def appendNode (dataTypes : List String) (over : Bool) (sub : Obj) (t : Tree) : R Obj :=
+  appendKids dataTypes over (taggedKeys sub) sub t.kids
 
 /-- `_append_branch(group, data, appendover)` -/
 def appendBranch (dataTypes : List String) (over : Bool) (g : Obj) (t : Tree) : R Obj :=
